@@ -203,3 +203,45 @@ def f23(mod, plan, viol):
         return True
     # single-octet character sets: the fragments come out as OCTET STRINGs the decoder refuses
     return viol['sig'][0] == 'reencoding-not-decodable' and _c10_clean_under_ber(mod, plan)
+
+
+# ---- C04: DEFAULT elision of constructed components relies on == of the raw component stores ----
+
+def _demote_constructed_defaults(desc, kinds=('SEQ', 'SET', 'SETOF')):
+    """Copy of desc in which DEFAULT components of the given constructed kinds are OPTIONAL."""
+    from simkit import universe as U
+    d = copy.deepcopy(desc)
+    changed = [False]
+
+    def walk(x):
+        if x['k'] in ('SEQ', 'SET'):
+            for f in x['fields']:
+                if f['opt'] == 'D' and f['d']['k'] in U.CONSTRUCTED and U.has_kind(f['d'], kinds):
+                    f['opt'] = 'O'
+                    f.pop('dv', None)
+                    changed[0] = True
+                walk(f['d'])
+        elif x['k'] in ('SEQOF', 'SETOF'):
+            walk(x['of'])
+        elif x['k'] == 'CHOICE':
+            for n, a in x['alts']:
+                walk(a)
+    walk(d)
+    return d, changed[0]
+
+
+@classifier('f24_constructed_default_elision_by_raw_equality')
+def f24(mod, plan, viol):
+    """F24: whether a DEFAULT component of SET OF / SEQUENCE / SET type is left out of DER/CER is decided
+    with ==, which for constructed values compares the raw component stores (F9f): order of insertion of
+    SET OF members, lazily instantiated inner defaults and absent inner OPTIONALs all change the answer.
+    SEQUENCE OF defaults are NOT covered (their comparison is positional and correct)."""
+    if viol['sig'][0] not in ('replicas-diverge', 'read-only-use-changed-encoding', 'reencoding-decoded-canonical-differs'):
+        return False
+    d2, changed = _demote_constructed_defaults(plan['desc'])
+    if not changed:
+        return False
+    p2 = copy.deepcopy(plan)
+    p2['desc'] = d2
+    res = mod.execute(p2)
+    return res['status'] != 'violation'
